@@ -51,10 +51,12 @@ class GMRF(CallableModel):
         self.precision = precision
         self.rescale = rescale
 
-    def _call(self, *args, **kwargs) -> torch.Tensor:
-        diff_square = torch.pow(
-            self.field.tensor[..., :-1] - self.field.tensor[..., 1:], 2.0
-        )
+    def _inverse_weights(self):
+        """Factor multiplying each squared first difference (None for the plain GMRF).
+
+        Shared by the log density and :meth:`precision_matrix` so that both
+        describe the same Gaussian.
+        """
         if self.tree_model is not None:
             heights = torch.cat(
                 (
@@ -70,11 +72,22 @@ class GMRF(CallableModel):
             indices = torch.argsort(heights, descending=False)
             heights_sorted = torch.gather(heights, -1, indices)
             durations = heights_sorted[..., 1:] - heights_sorted[..., :-1]
-            diff_square /= (durations[..., :-1] + durations[..., 1:]) / 2.0
+            inverse_weights = 2.0 / (durations[..., :-1] + durations[..., 1:])
             if self.rescale:
-                diff_square *= heights_sorted[..., -1:]
+                inverse_weights = inverse_weights * heights_sorted[..., -1:]
+            return inverse_weights
         elif self.weights is not None:
-            diff_square /= self.weights
+            weights = getattr(self.weights, 'tensor', self.weights)
+            return 1.0 / weights
+        return None
+
+    def _call(self, *args, **kwargs) -> torch.Tensor:
+        diff_square = torch.pow(
+            self.field.tensor[..., :-1] - self.field.tensor[..., 1:], 2.0
+        )
+        inverse_weights = self._inverse_weights()
+        if inverse_weights is not None:
+            diff_square = diff_square * inverse_weights
 
         dim = self.field.shape[-1] - 1.0  # field dim
         precision = self.precision.tensor
@@ -95,14 +108,15 @@ class GMRF(CallableModel):
             dtype=self.field.dtype,
             device=self.field.device,
         )
-        precision_matrix[..., range(dim - 1), range(1, dim)] = precision_matrix[
-            ..., range(1, dim), range(dim - 1)
-        ] = -precision.expand(self.field.shape[:-1] + (dim - 1,))
-
-        precision_matrix[..., range(1, dim - 1), range(1, dim - 1)] = 2.0 * precision
-        precision_matrix[..., 0, 0] = precision_matrix[
-            ..., (dim - 1), (dim - 1)
-        ] = precision.squeeze(-1)
+        offdiag = -precision.expand(self.field.shape[:-1] + (dim - 1,))
+        inverse_weights = self._inverse_weights()
+        if inverse_weights is not None:
+            offdiag = offdiag * inverse_weights
+        precision_matrix[..., range(dim - 1), range(1, dim)] = offdiag
+        precision_matrix[..., range(1, dim), range(dim - 1)] = offdiag
+        # rows sum to zero
+        precision_matrix[..., range(dim - 1), range(dim - 1)] -= offdiag
+        precision_matrix[..., range(1, dim), range(1, dim)] -= offdiag
         return precision_matrix
 
     @classmethod
